@@ -31,6 +31,9 @@ type vfC04Case struct {
 	// SilentClose: the server does not answer the client's closing tag (the client's Close then runs into its timeout),
 	// and the application - which got an error from Connect - tries to send all the same
 	SilentClose bool `json:"silent_close,omitempty"`
+	// DomainIP: the account's domain is an address literal (user@127.0.0.1). None of the test certificates is issued
+	// for that address, so none validates for the configured domain
+	DomainIP bool `json:"domain_ip,omitempty"`
 }
 
 const vfC04Domain = "localhost"
@@ -46,6 +49,9 @@ func vfC04Sensitive(s string) string {
 
 // vfC04Verifies tells whether the certificate the peer serves validates for the configured domain under the client's settings.
 func vfC04Verifies(cs *vfC04Case) bool {
+	if cs.DomainIP {
+		return false // no certificate here names 127.0.0.1
+	}
 	if cs.ClientTLS == "nil" {
 		return false // system roots do not know the test CA
 	}
@@ -190,6 +196,9 @@ func vfC04ClientTLS(cs *vfC04Case) *tls.Config {
 
 func vfC04RunTCP(run *vfkit.Run, cs *vfC04Case) {
 	tag := fmt.Sprintf("%s:%s:%s:%s", cs.Offer, cs.Reply, cs.Cert, cs.ClientTLS)
+	if cs.DomainIP {
+		tag += ":ip-literal-domain"
+	}
 	if cs.Logger {
 		tag += ":logged"
 	}
@@ -223,7 +232,11 @@ func vfC04RunTCP(run *vfkit.Run, cs *vfC04Case) {
 			ctls = &tls.Config{RootCAs: vfGetPKI().Pool}
 		}
 	}
-	c, obs, err := vfNewClient(vfClientOpt{Addr: peer.Addr(), Jid: "test@" + vfC04Domain, Insecure: cs.Insecure, TLSConfig: ctls, Domain: vfC04Domain}, nil)
+	domain := vfC04Domain
+	if cs.DomainIP {
+		domain = "127.0.0.1"
+	}
+	c, obs, err := vfNewClient(vfClientOpt{Addr: peer.Addr(), Jid: "test@" + domain, Insecure: cs.Insecure, TLSConfig: ctls, Domain: domain}, nil)
 	if err != nil {
 		run.Inconclusive("newclient")
 		return
@@ -432,6 +445,14 @@ func TestVf_C04(t *testing.T) {
 			}
 		}
 	}
+	// an address literal as the account's domain
+	for _, ct := range []string{"nil", "rootcas", "rootcas+hook"} {
+		for _, offer := range []string{"offered", "required"} {
+			for _, cert := range []string{"valid", "valid-both", "selfsigned", "untrusted"} {
+				cases = append(cases, &vfC04Case{Insecure: false, ClientTLS: ct, Offer: offer, Reply: "proceed", Cert: cert, Transport: "tcp", DomainIP: true})
+			}
+		}
+	}
 	// reconnect scenario: every peer behaviour again on the second connection
 	for _, ins := range []bool{false, true} {
 		for _, offer := range []string{"absent", "offered", "required"} {
@@ -473,7 +494,7 @@ func TestVf_C04(t *testing.T) {
 		r := vfkit.Rand(4)
 		var keep []*vfC04Case
 		for _, c := range cases {
-			if (c.Reconnect && !c.Logger) || c.Transport != "tcp" || r.Intn(4) == 0 {
+			if (c.Reconnect && !c.Logger) || c.Transport != "tcp" || (c.DomainIP && !c.Logger) || r.Intn(4) == 0 {
 				keep = append(keep, c)
 			}
 		}
